@@ -348,6 +348,28 @@ pub fn c16(cx: &mut Ctx) {
             cx.op("proceed");
         }
     }
+    // the accessor headers_map(): what the caller added is in it, on a fresh flow and on one made for a redirect,
+    // also under the names a redirect suppresses
+    for depth in 0..2usize {
+        for names in [vec!["cookie", "x-added"], vec!["authorization", "host"], vec!["content-length"], vec!["x-a", "x-b", "cookie", "cookie"]] {
+            cx.case("hmap");
+            if cx.rec.new_flow("GET HTTP/1.1 http://a.test/o 3 cookie 6f3d31 authorization 42 x-o 35") != "ok" { continue; }
+            let mut r = Rng::for_case(cx.seed, 1600);
+            let mut ok = true;
+            for _ in 0..depth { if !hop(cx, &mut r, 303, "http://b.test/n") { ok = false; break; } }
+            if !ok || cx.rec.state() != "prepare" { continue; }
+            for n in &names {
+                let v: &[u8] = match *n { "content-length" => b"3", "host" => b"added.test", _ => b"val" };
+                cx.op(&format!("hdr {} {}", n, hx(v)));
+            }
+            if names.contains(&"content-length") && depth > 0 { cx.op("despite"); }
+            cx.op("proceed");
+            cx.op("hmap");
+            cx.op("write 65536");
+            cx.op("hmap");
+            cx.op("canproceed");
+        }
+    }
 }
 
 const VERSIONS: [&str; 5] = ["HTTP/0.9", "HTTP/1.0", "HTTP/1.1", "HTTP/2.0", "HTTP/3.0"];
